@@ -94,9 +94,23 @@ def match_known(finding, known):
     return None
 
 
+def reset_caches():
+    """per-run caches are keyed by id(ast node): never carry them across two parses."""
+    from . import effects
+    from .rules import common
+    effects._WCACHE.clear()
+    common._CFG_CACHE.clear()
+    try:
+        from .rules import c20
+        c20._EOF_OUTCOMES.clear()
+    except Exception:
+        pass
+
+
 def run_property(prop, root=None, tier="quick"):
     """Run the rules of one property; returns (Report, wall seconds)."""
     t0 = time.time()
+    reset_caches()
     index = Index(root or DEFAULT_ROOT)
     mod = importlib.import_module("sa.rules.%s" % prop.lower())
     rep = Report(prop, index)
